@@ -22,7 +22,8 @@ ASSUMPTIONS = [
     'announced (C05 requires that), keys after it must not',
     'links are observed behaviourally (perturb each source with a fresh valid value and see which targets follow)',
 ]
-REQUIRED = {'rejected_attempts': 800, 'with_links': 500, 'link_probes': 2000, 'ref_attempts': 300, 'dynamic_attempts': 60, 'async_attempts': 40}
+REQUIRED = {'rejected_attempts': 800, 'with_links': 500, 'link_probes': 2000, 'ref_attempts': 300, 'dynamic_attempts': 60, 'async_attempts': 40,
+            'unchecked_selector_attempts': 30}
 
 _st = {}
 _n = [100]
@@ -198,6 +199,9 @@ def run_case(idx, rng, P, rep):
         c = param.Parameter(default='C', constant=True, allow_refs=True)
         r = param.Number(default=3, readonly=True)
         plain = param.Parameter(default=None)
+        # unchecked selectors accept (and remember) any value - unless they may not be assigned at all
+        csel = param.Selector(objects=['k1', 'k2'], check_on_set=False, constant=True)
+        rsel = param.ListSelector(objects=[1, 2], default=[1], check_on_set=False, readonly=True)
 
     Src.__name__ = f'Src{idx}'
     Tgt.__name__ = f'Tgt{idx}'
@@ -216,6 +220,14 @@ def run_case(idx, rng, P, rep):
         def cb(*events):
             log.append((label, [(e.name, e.new) for e in events]))
         o.param.watch(cb, [p for p in o.param if p != 'name'], onlychanged=False)
+        # watchers of Parameter attributes count as watchers too
+        for what in ('objects', 'bounds', 'constant'):
+            names = [p for p in o.param if p != 'name' and hasattr(o.param[p], what)]
+
+            def cb_attr(*events, what=what):
+                log.append((label, [(f'{e.name}:{what}', e.new) for e in events]))
+            if names:
+                o.param.watch(cb_attr, names, what=what, onlychanged=False)
     for k, o in objs.items():
         universal(k, o)
     cls_log = []
@@ -270,7 +282,8 @@ def run_case(idx, rng, P, rep):
             hist.append(('update',))
 
     # ---- the rejected attempt
-    kind = rng.choice(['plain-invalid', 'plain-invalid', 'ref-invalid', 'ref-invalid', 'ref-to-constant', 'constant', 'readonly'])
+    kind = rng.choice(['plain-invalid', 'plain-invalid', 'ref-invalid', 'ref-invalid', 'ref-to-constant', 'constant', 'readonly',
+                       'unchecked-selector'])
     route = rng.choice(['inst', 'inst', 'update1', 'updateN', 'class'])
     if kind == 'plain-invalid':
         tp = rng.choice(['x', 'y', 's', 'sel'])
@@ -310,10 +323,15 @@ def run_case(idx, rng, P, rep):
         tp = 'c'
         bad = ('new', nxt())
         route = rng.choice(['inst', 'update1', 'updateN'])
+    elif kind == 'unchecked-selector':
+        tp = rng.choice(['csel', 'rsel'])
+        bad = ('new-object', nxt()) if tp == 'csel' else [('new-object', nxt())]
+        route = rng.choice(['inst', 'update1', 'updateN']) if tp == 'csel' else rng.choice(['inst', 'update1', 'updateN', 'class'])
+        rep.count('unchecked_selector_attempts')
     else:
         tp = 'r'
         bad = 7
-    if route == 'class' and kind not in ('plain-invalid', 'readonly'):
+    if route == 'class' and kind not in ('plain-invalid', 'readonly', 'unchecked-selector'):
         route = 'inst'
 
     def snapshot():
@@ -323,7 +341,7 @@ def run_case(idx, rng, P, rep):
                 snap[('val', k, p)] = id(getattr(o, p))
             ws = o.param.watchers
             snap[('watchers', k)] = tuple(sorted((p, what, tuple(id(w) for w in lst)) for p, d in ws.items() for what, lst in d.items()))
-        for p in ('x', 'y', 's', 'sel', 'c', 'r', 'plain'):
+        for p in ('x', 'y', 's', 'sel', 'c', 'r', 'plain', 'csel', 'rsel'):
             snap[('clsval', p)] = id(getattr(Tgt, p))
             snap[('clsflags', p)] = (Tgt.param[p].constant, Tgt.param[p].readonly)
         return snap
